@@ -35,7 +35,9 @@ RELEVANT = {
     'cfg_getopt_secidx': ['C01', 'C06', 'C09', 'C10', 'C11', 'C12', 'C14'],
     'cfg_setopt': ['C01', 'C04', 'C05', 'C06', 'C07', 'C10', 'C14', 'C16'],
     'cfg_handle_deprecated': ['C01', 'C12'],
-    'cfg_parse_internal+cfg_include': ['C01', 'C02', 'C05', 'C06', 'C07', 'C08', 'C12', 'C13', 'C14', 'C15'],
+    # the grammar itself (C01, C12), its diagnostics (C06), the function-call states (C14); the other properties that run
+    # the parser see a drift through their own scenarios
+    'cfg_parse_internal+cfg_include': ['C01', 'C06', 'C12', 'C14'],
     'cfg_lexer_include': ['C06', 'C08', 'C13', 'C17'],
     'cfg_opt_rmnsec': ['C09', 'C10'],
 }
